@@ -145,7 +145,8 @@ def short(draw):
     ante = draw(st.sampled_from(["", "N, ", "N "])).replace("N", draw(_name))
     tail = draw(st.sampled_from(["", "-N", " n. 3", "", ", § N", " § N"])).replace("N", draw(_num))
     par = draw(_paren) if draw(st.integers(0, 2)) == 0 else ""
-    return f"{ante}{draw(_num)} {draw(reporter())}{draw(st.sampled_from([',', '']))} at {draw(_num)}{tail}{par}"
+    page = draw(_num) if draw(st.integers(0, 9)) else draw(st.sampled_from(["___", "_", "____"]))  # the page may be a placeholder
+    return f"{ante}{draw(_num)} {draw(reporter())}{draw(st.sampled_from([',', '']))} at {page}{tail}{par}"
 
 
 @st.composite
